@@ -146,6 +146,16 @@ Theorem C06_contents_purge : forall c now order s,
 Proof. exact contents_purge_proof. Qed.
 Print Assumptions C06_contents_purge.
 
+(* the converse of the contents clause: whenever a unit changes the learned names of an address (name update,
+   DHCP name through DHCPv4Update, reset by creation / re-binding), a notification about that address is emitted by
+   that unit or owed after it; with [C06_unit_exactly_once] (pending in the code = owed in the reference, host names
+   = reference names) this is "tracked names changed since the last notification => a notification is pending" *)
+Theorem C06_name_change_owed : forall c r u x,
+  r_names (rnext c r u) x <> r_names r x ->
+  due c r u x <> [] \/ existsb (ip_eqb x) (r_owed (rnext c r u)) = true.
+Proof. exact names_change_owed. Qed.
+Print Assumptions C06_name_change_owed.
+
 (* ---- non-vacuity ---- *)
 Example C06_history_admissible : units_ok std_cfg ex_s0 ex_units.
 Proof. exact ex_units_ok. Qed.
